@@ -159,6 +159,9 @@ func checkQuery(rt *rapid.T, st *stats.Collector, c *tcase, s *fx.Sess, q *query
 	}
 	pl := planLabel(plan)
 	st.Class(pl)
+	if strings.Contains(plan, "MergeJoin") {
+		st.Class("plan:merge-join")
+	}
 	ro := s.Exec(ordSQL)
 
 	fail := func(what string) {
